@@ -4,7 +4,7 @@ from __future__ import annotations
 ID = "C20"
 BOUNDS = {
     "quick": "datagram length L: (a) L = 0..9 fully symbolic (any header); (b) for each of the service types of KNXIPServiceType with a valid 6-octet header: total_length == L for L = 6..40 (list-structured bodies SEARCH_RESPONSE[_EXTENDED]/SEARCH_REQUEST_EXTENDED/DESCRIPTION_RESPONSE: up to 6 octets of DIB/SRP list, plus bodies starting with a 54-octet device-information DIB followed by 0..4 octets; TUNNELLING_FEATURE_* up to L = 24) and total_length symbolic (any value) for L = 6..12; all body octets symbolic; per-path budget 20 s (non-termination is reported as a hang)",
-    "thorough": "(a) L = 0..11; (b) exact-length L = 6..48, symbolic total_length for L = 6..14",
+    "thorough": "(a) L = 0..10; (b) exact-length L = 6..44, symbolic total_length for L = 6..13",
 }
 OUTSIDE = "datagrams longer than the bound (SecureWrapper/SearchResponse bodies beyond it); text content of DIB device names (opaque placeholder strings)"
 ASSUMPTIONS = [
@@ -22,7 +22,7 @@ REQUIRED_REACH = ["frame", "CouldNotParseKNXIP", "IncompleteKNXIPFrame"]
 def jobs(tier, seed):
     from xknx.knxip.knxip_enum import KNXIPServiceType
     out = []
-    a_top, ex_top, sy_top = (9, 40, 12) if tier == "quick" else (11, 48, 14)
+    a_top, ex_top, sy_top = (9, 40, 12) if tier == "quick" else (10, 44, 13)
     for L in range(0, a_top + 1):
         out.append(dict(name=f"any-L{L}", mode="any", L=L, cost=L * 3))
     LISTS = {"SEARCH_RESPONSE": 14, "SEARCH_RESPONSE_EXTENDED": 14, "SEARCH_REQUEST_EXTENDED": 14, "DESCRIPTION_RESPONSE": 6}
